@@ -38,6 +38,8 @@ def gen_plan(rng, tier):
         p["what"] = "qtop"              # read_gf_coupling reads every file twice: excluded from live mode (DESIGN C18)
         calls = [k.gen_call(rng, p) for _ in calls]
     call = calls[0]
+    call.pop("multi", None)          # truncation runs use the single-correlator entry point
+    call.pop("keyed_out", None)
     if mode == "live" or rng.random() < 0.7:
         for kk in ("r_start", "r_stop", "r_step", "files", "idl"):
             call.pop(kk, None)
